@@ -215,6 +215,8 @@ def run_check(mod, tier: str, seed: int, jobs: int, cap_s: Optional[float] = Non
         total.states += w["states"]
         total.transitions += w["transitions"]
         total.traces += w["traces"]
+        for vv in w["violations"]:
+            vv["item"] = items[idx]
         total.violations.extend(w["violations"])
         for k, v in w["stats"].items():
             total.stats[k] = total.stats.get(k, 0) + v
@@ -259,6 +261,15 @@ def run_check(mod, tier: str, seed: int, jobs: int, cap_s: Optional[float] = Non
         ok_here = _confirm_inprocess(mod, v)
         path = write_replay(prop, v, tier, seed)
         ok_fresh = _confirm_fresh(prop, path)
+        if not ok_fresh and v.get("item") is not None:
+            # the single case does not fail from a fresh process: the failure may depend on what the same partition executed
+            # before it (hidden state).  The replayable artefact then is the partition = the whole operation sequence.
+            pv = dict(v)
+            pv["case"] = {"partition": v["item"], "kind": v["kind"], "failing_case": v["case"]}
+            ppath = write_replay(prop, pv, tier, seed)
+            if _confirm_fresh(prop, ppath) and _confirm_fresh(prop, ppath):
+                path, ok_here, ok_fresh = ppath, True, True
+                v = pv
         if not (ok_here and ok_fresh):
             print(f"HARNESS-ERROR property={prop} non-reproducible violation replay={path} "
                   f"(same-process={ok_here}, fresh-process={ok_fresh})")
@@ -306,7 +317,10 @@ def run_replay(mod, path: str) -> int:
         body = json.load(f)
     if hasattr(mod, "worker_init"):
         mod.worker_init()
-    vs = mod.replay(body["case"])
+    if isinstance(body["case"], dict) and "partition" in body["case"]:
+        vs = [v for v in mod.run_item(body["case"]["partition"]).violations if v["kind"] == body["case"]["kind"]]
+    else:
+        vs = mod.replay(body["case"])
     hit = [v for v in vs if v["kind"] == body.get("kind", v["kind"])] or vs
     if hit:
         print(f"VIOLATION property={mod.ID} replay={path}")
